@@ -110,6 +110,8 @@ def eval_hp(model, case):
 
 
 def gen_hp_cases(tier, seed):
+    if os.environ.get("VERIF_NO_HP"):        # timing comparisons only
+        return []
     rng = random.Random(7000003 * seed + 55)
     quick = tier == "quick"
     out = []
